@@ -94,6 +94,14 @@ macro_rules! cycle_check {
         if x.next(a as isize).next(b as isize).get_index() != x.next((a + b) as isize).get_index() || x.next(a as isize).next(-a as isize).get_index() as i64 != i || x.next(0).get_index() as i64 != i {
           out.push((format!("C11/cycle-laws/{}_{:03}", $name, i), "composition / inverse / identity broken".into(), "group action".into()));
         }
+        // the same laws as the type's own equality sees them, and equality tells neighbours apart
+        let eq_ok = x.next(0) == x && x.next(a as isize).next(-a as isize) == x && x.next(a as isize).next(b as isize) == x.next((a + b) as isize) && <$ty>::from_index(i as isize) == x && !(x.next(0) != x);
+        // (several cycles carry the same name at neighbouring indices and compare by name: only differently
+        // named neighbours have to differ)
+        let ne_ok = real < 2 || x.next(1).get_name() == x.get_name() || (x.next(1) != x && !(x.next(1) == x));
+        if !eq_ok || !ne_ok {
+          out.push((format!("C11/cycle-equality/{}_{:03}", $name, i), format!("laws under == hold: {}, neighbour differs: {}", eq_ok, ne_ok), "both".into()));
+        }
       }
       (out, real, steps.len() as i64)
     });
